@@ -205,6 +205,7 @@ def handle (line : String) : String :=
     | some ms => s!"out={showBMap (unifyBM ms)}"
     | none => "bad-op"
   | ["cls", hint, a, b] => s!"D={orderClass hint a b}"
+  | ["inset", members] => s!"out={siteInSet (csv members)}"
   | _ => "bad-op"
 
 partial def loop (h : IO.FS.Stream) : IO Unit := do
